@@ -66,6 +66,9 @@ structure Comps (α S E P : Type) where
   spStep : P → List (Frame α) → α → Info α → P × List (Frame α)
   /-- what a spatial track adds to the `Info` seen by itself and its descendants -/
   spInfo : P → Info α → Info α
+  /-- the spatial part of `Track::read_commands` (the `set_position` / `set_spatialization_strength`
+      command readers), run by `Track::on_start_processing`; spatial data without commands keeps the default -/
+  spStart : P → P := fun p => p
 
 /-- `for effect in &mut self.effects { effect.process(out, dt, info) }` -/
 def runEffects {S E P : Type} (C : Comps α S E P) (dt : α) (info : Info α) :
@@ -197,7 +200,7 @@ def pending : Trk α S E P → List (Trk α S E P)
 def publish (d : TrkData α S E P) : TrkData α S E P :=
   { d with pubState := d.psm.playbackState.toNat }
 
-/-- mirrors: Track::read_commands (spatial commands are part of the spatial hook) -/
+/-- mirrors: Track::read_commands (the spatial commands are read by the hook `Comps.spStart`, see `onStart`) -/
 def readCommands (d : TrkData α S E P) : TrkData α S E P :=
   let d1 := { d with volume := readCommand d.volume d.cmdVolume, cmdVolume := none,
                      routes := d.routes.map (fun (r : Route α) => { r with volume := readCommand r.volume r.cmd, cmd := none }) }
@@ -235,7 +238,8 @@ def onStart (C : Comps α S E P) : Trk α S E P → Trk α S E P
     -- the ones that have just been taken from the ring
     let kept := onStartKept C children
     let added := onStartList C pending
-    node { d1 with sounds := sounds, pendingSounds := [], effects := d1.effects.map C.fxStart }
+    node { d1 with sounds := sounds, pendingSounds := [], effects := d1.effects.map C.fxStart,
+                   spatial := d1.spatial.map C.spStart }
       (added.reverse ++ kept) []
 /-- drop the removable sub-tracks, run `on_start_processing` on the others -/
 def onStartKept (C : Comps α S E P) : List (Trk α S E P) → List (Trk α S E P)
